@@ -30,7 +30,7 @@ M("C03-R1-negate-gt", "C03", [(O, "Op::Gt => Op::Lte,", "Op::Gt => Op::Lt,")], [
 M("C03-R1-negate-like", "C03", [(O, "Op::Like => Op::NotLike,", "Op::Like => Op::NotRx,")], ["negate_Like"])
 M("C03-R2-no-demorgan", "C03", [(P, "LogicalOp::And => LogicalOp::Or,\n                LogicalOp::Or => LogicalOp::And,", "LogicalOp::And => LogicalOp::And,\n                LogicalOp::Or => LogicalOp::Or,")], ["de-morgan"])
 M("C03-R3-not-between", "C03", [(P, "true => Op::Lt,", "true => Op::Lte,")], ["not-between"])
-M("C03-R4-and-builds-or", "C03", [(P, "Some(right) => Some(Expr::logical_op(right, LogicalOp::And, expr.unwrap())),", "Some(right) => Some(Expr::logical_op(right, LogicalOp::Or, expr.unwrap())),")], ["layering_parse_and"])
+M("C03-R4-and-builds-or", "C03", [(P, "Some(right) => Some(Expr::logical_op(right, LogicalOp::And, expr.unwrap())),", "Some(right) => Some(Expr::logical_op(right, LogicalOp::Or, expr.unwrap())),")], ["layering_"])
 M("C03-R5-and-shortcircuit", "C03", [(S, "if !left_result {\n                        result = false;", "if !left_result {\n                        result = true;")], ["conforms_And"])
 M("C03-R5-or-as-and", "C03", [(S, "result = left_result || right_result", "result = left_result && right_result")], ["conforms_Or"])
 M("C03-R6-not-sets-true", "C03", [(P, "negate = !negate;", "negate = true;")], ["not-parity"])
@@ -318,7 +318,7 @@ M("X-WBUF-half-chunk", "C09", [(WB, "        self.buf.extend_from_slice(buf);\n 
 M("X-DATEALIKE-month-exclusive", "C13", [(L, "(1..=12).contains(&month)", "(1..12).contains(&month)")], ["date-alike-ranges"])
 # (was a variant until seed C15-k showed what a wider range costs: `1950-size` stops being a subtraction)
 M("X-DATEALIKE-years-wider", "C13", [(L, "(1970..3000).contains(&year)", "(1900..3000).contains(&year)")], ["number-minus"])
-M("C03-R2-descend-filtered", "C03", [(P, "        if let Some(right) = &expr.right {\n            result.right = Some(Box::from(Self::negate_expr_op(right)));", "        if let Some(right) = expr.right.as_ref().filter(|e| e.op.is_some()) {\n            result.right = Some(Box::from(Self::negate_expr_op(right)));")], ["descend-right"])
+M("C03-R2-descend-filtered", "C03", [(P, "        if let Some(right) = &expr.right {\n            result.right = Some(Box::from(Self::negate_expr_op(right)));", "        if let Some(right) = expr.right.as_ref().filter(|e| e.op.is_some()) {\n            result.right = Some(Box::from(Self::negate_expr_op(right)));")], ["de-morgan"])
 M("C03-V-descend-match", "C03", [(P, "        if let Some(left) = &expr.left {\n            result.left = Some(Box::from(Self::negate_expr_op(left)));\n        }", "        match &expr.left {\n            Some(left) => {\n                result.left = Some(Box::from(Self::negate_expr_op(left)));\n            }\n            None => {}\n        }")], kind="variant")
 M("C03-V-descend-map", "C03", [(P, "        if let Some(left) = &expr.left {\n            result.left = Some(Box::from(Self::negate_expr_op(left)));\n        }", "        result.left = expr.left.as_ref().map(|left| Box::from(Self::negate_expr_op(left)));")], kind="variant")
 M("C05-R3-key-deduplicated", "C05", [(P, "                            order_by_fields.push(actual_field);\n                            order_by_directions.push(true);", "                            if !order_by_fields.contains(&actual_field) {\n                                order_by_fields.push(actual_field);\n                                order_by_directions.push(true);\n                            }")], ["every-key-kept"])
